@@ -436,6 +436,20 @@ fn run(args: &[String]) -> i32 {
 
 /// The echo script for `k` calls. Two shapes: straight-line code, and a loop (whose body runs on
 /// the runtime's frame arena, reset on every iteration).
+/// Third shape (`drop`): the result of the FIRST call goes into a variable nobody reads (the read-and-drop
+/// idiom for a header line; seed C17-d2: `read_line` classed as a pure builtin, so the optimisation plan
+/// removes the call and every later call returns the line before). The unused variable earns a warning on
+/// stdout, so the program output is what follows the sentinel line.
+const SENTINEL: &str = "@@c17-output-begins@@";
+
+fn script_drop(k: usize) -> String {
+    let mut s = format!("shout(\"{SENTINEL}\")\nmake header get read_line(\"\")\n");
+    for i in 1..k {
+        s.push_str(&format!("make l{i} get read_line(\"\")\nshout(l{i})\n"));
+    }
+    s
+}
+
 fn script(k: usize, looped: bool) -> String {
     let mut s = String::new();
     if looped {
@@ -455,12 +469,15 @@ fn cli_case(naija: &str, tmp: &str, from_file: bool, i: usize, request: &str) ->
         return "bad-request".to_string();
     };
     let pid = std::process::id();
-    let looped = i % 2 == 1;
-    let script_path = format!("{tmp}/c17-{pid}-k{}-{}.ns", req.calls, if looped { "loop" } else { "flat" });
+    let dropping = i % 3 == 2 && req.calls >= 2;
+    let looped = !dropping && i % 2 == 1;
+    let shape = if dropping { "drop" } else if looped { "loop" } else { "flat" };
+    let script_path = format!("{tmp}/c17-{pid}-k{}-{shape}.ns", req.calls);
     if !std::path::Path::new(&script_path).exists() {
         // written under a private name and renamed, so that no other worker sees half a file
         let part = format!("{script_path}.{i}.part");
-        if std::fs::write(&part, script(req.calls, looped)).is_err() || std::fs::rename(&part, &script_path).is_err() {
+        let text = if dropping { script_drop(req.calls) } else { script(req.calls, looped) };
+        if std::fs::write(&part, text).is_err() || std::fs::rename(&part, &script_path).is_err() {
             return "machinery(script)".to_string();
         }
     }
@@ -513,7 +530,25 @@ fn cli_case(naija: &str, tmp: &str, from_file: bool, i: usize, request: &str) ->
     }
     // `shout` prints the line and a newline; a line holds no newline, so cutting at `\n` is exact
     let mut pieces: Vec<&[u8]> = output.split(|&b| b == b'\n').collect();
-    if pieces.pop().is_none_or(|last| !last.is_empty()) || pieces.len() != req.calls {
+    if pieces.pop().is_none_or(|last| !last.is_empty()) {
+        return format!("malformed-output({} pieces for {} calls)", pieces.len(), req.calls);
+    }
+    if dropping {
+        // program output follows the sentinel; the dropped first line is taken from the text itself (what is
+        // compared is that the LATER calls return the later lines)
+        let Some(at) = pieces.iter().position(|p| *p == SENTINEL.as_bytes()) else {
+            return "malformed-output(no sentinel)".to_string();
+        };
+        let rest = pieces.split_off(at + 1);
+        if rest.len() + 1 != req.calls {
+            return format!("malformed-output({} pieces after the sentinel for {} calls)", rest.len(), req.calls);
+        }
+        let first = oracle_lines(&req.chunks.concat(), 1).pop().unwrap_or_default();
+        let mut results = vec![CallResult::Line(first)];
+        results.extend(rest.into_iter().map(|p| CallResult::Line(p.to_vec())));
+        return render(&results);
+    }
+    if pieces.len() != req.calls {
         return format!("malformed-output({} pieces for {} calls)", pieces.len(), req.calls);
     }
     let results: Vec<CallResult> = pieces.into_iter().map(|p| CallResult::Line(p.to_vec())).collect();
